@@ -637,3 +637,293 @@ Theorem C01_alm_panoc_provider_refines_oracle_model :
     Forall2 (log_sim D) (co_logs coD) (co_logs co).
 Proof. exact alm_panoc_dir_refines. Qed.
 Print Assumptions C01_alm_panoc_provider_refines_oracle_model.
+
+(* ====================================================================================================================================
+   (11)–(15) ALL FOUR SHIPPED DIRECTION PROVIDERS under ALM∘PANOC and ALM∘ZeroFPR.
+   `kkt_point Pb Clb Cub n m tol dtol x y` abbreviates the conclusion of the end-to-end theorems above (C01_kkt_point_unfolds).
+   A provider "keeps dimensions" (DirLen.dir_len n D ops I0 Iv): there are predicates I0 (the provider as constructed) and Iv on its states
+   such that on n-vectors initialize — if it returns — establishes Iv from a state satisfying I0 or Iv, update / changed_γ / reset preserve
+   Iv, and apply — if it returns — preserves Iv and, when it returns true, leaves an n-vector in q.  Unlike the five obligations of (7)
+   this lets initialize depend on the state it finds, which AndersonDirection needs (resize keeps same-sized storage).
+   The composed models thread (cumulative counters, provider) through the inner solves; "the provider is sane (I0 or Iv)" is an invariant
+   of that world (an inner solve that exits before its first initialize hands the provider on untouched). *)
+From Alpaqa Require Import LMQR DirWf DirLen PanocDirLenW AlmComposeKktW AlmPanocDirW
+     ZeroFprDir ZeroFprDirProofs ZeroFprDirLen AlmZeroFprDir AlmZeroFprDirProofs AlmZeroFprDirRefine.
+
+Theorem C01_kkt_point_unfolds : forall (Pb : problem (T:=R)) (Clb Cub : list (option R)) (n m : nat) (tol dtol : R) (x y : list R),
+  kkt_point Pb Clb Cub n m tol dtol x y <->
+  (length x = n /\ length y = m /\
+   (* x in C *)
+   (forall i, (i < n)%nat -> in_box (nth i Clb None) (nth i Cub None) (nth i x 0)) /\
+   (* stationarity: -(∇f(x) + ∇g(x) y) within tol (max norm) of the normal cone of C at x *)
+   (forall i, (i < n)%nat -> exists r,
+       (forall u, in_box (nth i Clb None) (nth i Cub None) u -> r * (u - nth i x 0) <= 0) /\
+       Rabs (- nth i (vadd (pgrad_f Pb x) (pgrad_g_prod Pb x y)) 0 - r) <= tol) /\
+   (* feasibility: dist∞(g(x), D) <= dtol *)
+   (forall i, (i < m)%nat -> exists z,
+       in_box (nth i (plb Pb) None) (nth i (pub Pb) None) z /\ Rabs (nth i (pg Pb x) 0 - z) <= dtol) /\
+   (* complementarity: y_i > 0 (< 0) only where g_i(x) is within dtol of its upper (lower) bound *)
+   (forall i, (i < m)%nat ->
+       (0 < nth i y 0 -> exists u, nth i (pub Pb) None = Some u /\ Rabs (nth i (pg Pb x) 0 - u) <= dtol) /\
+       (nth i y 0 < 0 -> exists l, nth i (plb Pb) None = Some l /\ Rabs (nth i (pg Pb x) 0 - l) <= dtol))).
+Proof. intros. reflexivity. Qed.
+Print Assumptions C01_kkt_point_unfolds.
+
+(* what "keeps dimensions" says, field by field *)
+Theorem C01_dir_len_unfolds : forall (n : nat) (D : Type) (ops : dirops R D) (I0 Iv : D -> Prop),
+  dir_len n D ops I0 Iv <->
+  ((forall d y S γ x xh p g d', I0 d \/ Iv d -> length x = n -> length xh = n -> length p = n -> length g = n ->
+      d_initialize D ops d y S γ x xh p g = Some d' -> Iv d') /\
+   (forall d γ γn x xn p pn g gn, Iv d ->
+      length x = n -> length xn = n -> length p = n -> length pn = n -> length g = n -> length gn = n ->
+      Iv (snd (d_update D ops d γ γn x xn p pn g gn))) /\
+   (forall d γ x xh p g q b q' d', Iv d -> length x = n -> length xh = n -> length p = n -> length g = n ->
+      d_apply D ops d γ x xh p g q = Some (b, q', d') -> Iv d' /\ (b = true -> length q' = n)) /\
+   (forall d a b, Iv d -> Iv (d_changed_gamma D ops d a b)) /\
+   (forall d, Iv d -> Iv (d_reset D ops d))).
+Proof.
+  intros. split; [intros [A B C E F]; split; [exact A|split; [exact B|split; [exact C|split; [exact E|exact F]]]]|intros (A & B & C & E & F); constructor; assumption].
+Qed.
+Print Assumptions C01_dir_len_unfolds.
+
+(* (11) the four shipped providers keep dimensions; hypotheses = the providers' own preconditions only:
+     LBFGSDirection: none (memory < 1 makes initialize throw);  NoopDirection: none;
+     AndersonDirection: memory >= 1 (any n, incl. n = 0; I0 holds for the default-constructed provider: C01_anderson_as_constructed);
+     StructuredLBFGSDirection: none (memory < 1 or a failing capability check make initialize throw, CBFGS makes apply_masked throw;
+     dir_len only speaks about calls that return) *)
+Theorem C01_shipped_providers_keep_dimensions : forall (n : nat),
+  (forall pw (LP : Lbfgs.params R) rescale, dir_len n (Lbfgs.state R) (lbfgs_dir n pw LP rescale) (fun _ => True) (LIv n LP)) /\
+  dir_len n unit (noop_dir (T:=R)) (fun _ => True) (fun _ => True) /\
+  (forall mem mdf rescale, (1 <= mem)%nat -> dir_len n (aast R) (anderson_dir n mem mdf rescale) (anderson_I0 n) (anderson_Iv n)) /\
+  (forall pw (LP : Lbfgs.params R) lb ub l1 Dlb Dub prov_inactive prov_hess_L prov_hess_psi prov_box_D prov_grad_gi
+          grad_psi_at hess_L_prod hess_psi_prod eval_g grad_gi cbrt_eps hvf fd full_aug use_scaled,
+     dir_len n (sdstate (T:=R))
+             (struct_dir n pw LP lb ub l1 Dlb Dub prov_inactive prov_hess_L prov_hess_psi prov_box_D prov_grad_gi
+                         grad_psi_at hess_L_prod hess_psi_prod eval_g grad_gi cbrt_eps hvf fd full_aug use_scaled)
+             (fun _ => True) (SIv n LP)).
+Proof.
+  intros n. split; [exact (lbfgs_len n)|]. split; [exact (noop_len n)|]. split; [exact (anderson_len n)|exact (struct_len_all n)].
+Qed.
+Print Assumptions C01_shipped_providers_keep_dimensions.
+
+Theorem C01_anderson_as_constructed : forall n mem mdf, anderson_I0 n (anderson_unsized (T:=R) mem mdf).
+Proof. exact anderson_unsized_I0. Qed.
+Print Assumptions C01_anderson_as_constructed.
+
+Section ShippedStacks.
+  Variable Pb : problem (T:=R).
+  Variable prov : fn -> bool.
+  Variable wm_supplied : list R -> list R.
+  Variables (Clb Cub : list (option R)) (l1 : list R).
+  Variable split : nat.
+  Variables (stop_req time_up : counters -> bool) (outer_oot : nat -> bool).
+  Variable PP : Panoc.params (T:=R).
+  Variable from_prox : bool.                 (* ZeroFPRParams::update_direction_from_prox_step (ZeroFPR theorems only) *)
+  Variable AP : alm_params (T:=R).
+  Variables (ls_fuel inner_fuel n m : nat).
+  (* the hypotheses of C01_alm_panoc_converged_is_kkt / C01_alm_zerofpr_converged_is_kkt, each genuinely needed (see there) *)
+  Hypothesis Hprov : provider_ok Pb prov.
+  Hypothesis Hempty : grad_g_prod_empty_ok Pb.
+  Hypothesis Hl1 : l1 = [].
+  Hypothesis Hcrit : p_crit PP = ApproxKKT.
+  Hypothesis HLg : 0 < p_Lgamma PP.
+  Hypothesis HL : 0 < p_L0 PP \/ 0 < p_Lmin PP <= p_Lmax PP.
+  Hypothesis HClb : length Clb = n.
+  Hypothesis HCub : length Cub = n.
+  Hypothesis HCne : Forall2 box_ne Clb Cub.
+  Hypothesis Hgf : forall x, length x = n -> length (pgrad_f Pb x) = n.
+  Hypothesis Hgg : forall x y, length x = n -> length (pgrad_g_prod Pb x y) = n.
+  Hypothesis Hg : forall x, length x = n -> length (pg Pb x) = m.
+  Hypothesis HDlb : length (plb Pb) = m.
+  Hypothesis HDub : length (pub Pb) = m.
+  Hypothesis HDne : Forall2 box_ne (plb Pb) (pub Pb).
+
+  (* the ALM-level hypotheses on one run, as in (3) *)
+  Definition alm_run_hyps (Σ0 : option (list R)) (y0 x0 : list R) : Prop :=
+    length x0 = n /\ length y0 = m /\ Alm.p_max_iter AP <> 0%nat /\
+    (m <> 0%nat -> sigma_inv AP m (initial_sigma AP m (pf Pb x0) (pg Pb x0) Σ0)) /\
+    (m = 0%nat -> 0 < p_tol AP).
+
+  (* (12) ALM ∘ PANOC, every provider that keeps dimensions in the sense of dir_len *)
+  Theorem C01_alm_panoc_dirlen_provider_converged_is_kkt :
+    forall (D : Type) (ops : dirops R D) (I0 Iv : D -> Prop), dir_len n D ops I0 Iv ->
+    forall (d0 : D) outer_fuel nanv Σ0 y0 x0 co, I0 d0 \/ Iv d0 -> alm_run_hyps Σ0 y0 x0 ->
+    alm_panoc_dir Pb prov wm_supplied Clb Cub l1 split D ops stop_req time_up outer_oot PP AP ls_fuel inner_fuel d0 outer_fuel nanv Σ0 y0 x0
+      = Some co ->
+    f_status (co_final co) = Converged ->
+    kkt_point Pb Clb Cub n m (p_tol AP) (p_dual_tol AP) (co_x co) (f_y (co_final co)).
+  Proof.
+    intros D ops I0 Iv HDL d0 outer_fuel nanv Σ0 y0 x0 co Hd0 (H1 & H2 & H3 & H4 & H5).
+    exact (alm_panoc_dirlen_converged_is_kkt Pb prov wm_supplied Clb Cub l1 split D ops stop_req time_up outer_oot PP AP ls_fuel inner_fuel n m
+             Hprov Hempty Hl1 Hcrit HLg HL HClb HCub HCne Hgf Hgg Hg HDlb HDub HDne I0 Iv HDL d0 outer_fuel nanv Σ0 y0 x0 co Hd0 H1 H2 H3 H4 H5).
+  Qed.
+
+  (* ALMSolver<PANOCSolver<AndersonDirection>>: memory >= 1; every min_div_fac, rescale_on_step_size_changes;
+     started from the provider as constructed (C01_anderson_as_constructed) or as an earlier run left it *)
+  Theorem C01_alm_panoc_anderson_converged_is_kkt :
+    forall (mem : nat) (mdf : R) (rescale : bool), (1 <= mem)%nat ->
+    forall (d0 : aast R) outer_fuel nanv Σ0 y0 x0 co, anderson_I0 n d0 \/ anderson_Iv n d0 -> alm_run_hyps Σ0 y0 x0 ->
+    alm_panoc_dir Pb prov wm_supplied Clb Cub l1 split (aast R) (anderson_dir n mem mdf rescale) stop_req time_up outer_oot PP AP
+                  ls_fuel inner_fuel d0 outer_fuel nanv Σ0 y0 x0 = Some co ->
+    f_status (co_final co) = Converged ->
+    kkt_point Pb Clb Cub n m (p_tol AP) (p_dual_tol AP) (co_x co) (f_y (co_final co)).
+  Proof.
+    intros mem mdf rescale Hmem d0 outer_fuel nanv Σ0 y0 x0 co Hd0 (H1 & H2 & H3 & H4 & H5).
+    exact (alm_panoc_anderson_converged_is_kkt Pb prov wm_supplied Clb Cub l1 split stop_req time_up outer_oot PP AP ls_fuel inner_fuel n m
+             Hprov Hempty Hl1 Hcrit HLg HL HClb HCub HCne Hgf Hgg Hg HDlb HDub HDne mem mdf rescale Hmem d0 outer_fuel nanv Σ0 y0 x0 co Hd0 H1 H2 H3 H4 H5).
+  Qed.
+
+  (* ALMSolver<PANOCSolver<StructuredLBFGSDirection>>: NO hypothesis about the direction — every LBFGSParams and direction parameter
+     (Hessian-vector term in all variants with ARBITRARY Hessian / gradient members, both failure policies), every box / l1 data the
+     provider is given, any provider state d0.  The provider's throw conditions (memory < 1, a failing capability check of initialize,
+     CBFGS in apply_masked) need not be excluded: a run in which a provider call throws has no result, the statement is about completed runs *)
+  Theorem C01_alm_panoc_struclbfgs_converged_is_kkt :
+    forall pw (LP : Lbfgs.params R) slb sub sl1 Dlb Dub prov_inactive prov_hess_L prov_hess_psi prov_box_D prov_grad_gi
+           grad_psi_at hess_L_prod hess_psi_prod eval_g grad_gi cbrt_eps hvf fd full_aug use_scaled
+           (d0 : sdstate (T:=R)) outer_fuel nanv Σ0 y0 x0 co, alm_run_hyps Σ0 y0 x0 ->
+    alm_panoc_dir Pb prov wm_supplied Clb Cub l1 split (sdstate (T:=R))
+                  (struct_dir n pw LP slb sub sl1 Dlb Dub prov_inactive prov_hess_L prov_hess_psi prov_box_D prov_grad_gi
+                              grad_psi_at hess_L_prod hess_psi_prod eval_g grad_gi cbrt_eps hvf fd full_aug use_scaled)
+                  stop_req time_up outer_oot PP AP ls_fuel inner_fuel d0 outer_fuel nanv Σ0 y0 x0 = Some co ->
+    f_status (co_final co) = Converged ->
+    kkt_point Pb Clb Cub n m (p_tol AP) (p_dual_tol AP) (co_x co) (f_y (co_final co)).
+  Proof.
+    intros pw LP slb sub sl1 Dlb Dub b1 b2 b3 b4 b5 f1 f2 f3 f4 f5 ce hvf fd fa us d0 outer_fuel nanv Σ0 y0 x0 co (H1 & H2 & H3 & H4 & H5).
+    exact (alm_panoc_struclbfgs_converged_is_kkt Pb prov wm_supplied Clb Cub l1 split stop_req time_up outer_oot PP AP ls_fuel inner_fuel n m
+             Hprov Hempty Hl1 Hcrit HLg HL HClb HCub HCne Hgf Hgg Hg HDlb HDub HDne pw LP slb sub sl1 Dlb Dub b1 b2 b3 b4 b5 f1 f2 f3 f4 f5 ce hvf fd fa us
+             d0 outer_fuel nanv Σ0 y0 x0 co H1 H2 H3 H4 H5).
+  Qed.
+
+  (* (13) ALM ∘ ZeroFPR with a stateful provider (AlmZeroFprDir.alm_zerofpr_dir), generically *)
+  Theorem C01_alm_zerofpr_provider_converged_is_kkt :
+    forall (D : Type) (ops : dirops R D) (I0 Iv : D -> Prop), dir_len n D ops I0 Iv ->
+    forall (d0 : D) outer_fuel nanv Σ0 y0 x0 co, I0 d0 \/ Iv d0 -> alm_run_hyps Σ0 y0 x0 ->
+    alm_zerofpr_dir Pb prov wm_supplied Clb Cub l1 split D ops stop_req time_up outer_oot PP from_prox AP ls_fuel inner_fuel d0
+                    outer_fuel nanv Σ0 y0 x0 = Some co ->
+    f_status (co_final co) = Converged ->
+    kkt_point Pb Clb Cub n m (p_tol AP) (p_dual_tol AP) (co_x co) (f_y (co_final co)).
+  Proof.
+    intros D ops I0 Iv HDL d0 outer_fuel nanv Σ0 y0 x0 co Hd0 (H1 & H2 & H3 & H4 & H5).
+    exact (alm_zerofpr_dir_converged_is_kkt Pb prov wm_supplied Clb Cub l1 split D ops stop_req time_up outer_oot PP from_prox AP ls_fuel inner_fuel n m
+             Hprov Hempty Hl1 Hcrit HLg HL HClb HCub HCne Hgf Hgg Hg HDlb HDub HDne I0 Iv HDL d0 outer_fuel nanv Σ0 y0 x0 co Hd0 H1 H2 H3 H4 H5).
+  Qed.
+
+  (* ALMSolver<ZeroFPRSolver<LBFGSDirection>>: NO hypothesis about the direction (every LBFGSParams, CBFGS, rescaling, any provider state) *)
+  Theorem C01_alm_zerofpr_lbfgs_converged_is_kkt :
+    forall pw (LP : Lbfgs.params R) (rescale : bool) (d0 : Lbfgs.state R) outer_fuel nanv Σ0 y0 x0 co, alm_run_hyps Σ0 y0 x0 ->
+    alm_zerofpr_dir Pb prov wm_supplied Clb Cub l1 split (Lbfgs.state R) (lbfgs_dir n pw LP rescale) stop_req time_up outer_oot PP from_prox AP
+                    ls_fuel inner_fuel d0 outer_fuel nanv Σ0 y0 x0 = Some co ->
+    f_status (co_final co) = Converged ->
+    kkt_point Pb Clb Cub n m (p_tol AP) (p_dual_tol AP) (co_x co) (f_y (co_final co)).
+  Proof.
+    intros pw LP rescale d0 outer_fuel nanv Σ0 y0 x0 co (H1 & H2 & H3 & H4 & H5).
+    exact (alm_zerofpr_lbfgs_converged_is_kkt Pb prov wm_supplied Clb Cub l1 split stop_req time_up outer_oot PP from_prox AP ls_fuel inner_fuel n m
+             Hprov Hempty Hl1 Hcrit HLg HL HClb HCub HCne Hgf Hgg Hg HDlb HDub HDne pw LP rescale d0 outer_fuel nanv Σ0 y0 x0 co H1 H2 H3 H4 H5).
+  Qed.
+
+  Theorem C01_alm_zerofpr_noop_converged_is_kkt :
+    forall (d0 : unit) outer_fuel nanv Σ0 y0 x0 co, alm_run_hyps Σ0 y0 x0 ->
+    alm_zerofpr_dir Pb prov wm_supplied Clb Cub l1 split unit (noop_dir (T:=R)) stop_req time_up outer_oot PP from_prox AP
+                    ls_fuel inner_fuel d0 outer_fuel nanv Σ0 y0 x0 = Some co ->
+    f_status (co_final co) = Converged ->
+    kkt_point Pb Clb Cub n m (p_tol AP) (p_dual_tol AP) (co_x co) (f_y (co_final co)).
+  Proof.
+    intros d0 outer_fuel nanv Σ0 y0 x0 co (H1 & H2 & H3 & H4 & H5).
+    exact (alm_zerofpr_noop_converged_is_kkt Pb prov wm_supplied Clb Cub l1 split stop_req time_up outer_oot PP from_prox AP ls_fuel inner_fuel n m
+             Hprov Hempty Hl1 Hcrit HLg HL HClb HCub HCne Hgf Hgg Hg HDlb HDub HDne d0 outer_fuel nanv Σ0 y0 x0 co H1 H2 H3 H4 H5).
+  Qed.
+
+  Theorem C01_alm_zerofpr_anderson_converged_is_kkt :
+    forall (mem : nat) (mdf : R) (rescale : bool), (1 <= mem)%nat ->
+    forall (d0 : aast R) outer_fuel nanv Σ0 y0 x0 co, anderson_I0 n d0 \/ anderson_Iv n d0 -> alm_run_hyps Σ0 y0 x0 ->
+    alm_zerofpr_dir Pb prov wm_supplied Clb Cub l1 split (aast R) (anderson_dir n mem mdf rescale) stop_req time_up outer_oot PP from_prox AP
+                    ls_fuel inner_fuel d0 outer_fuel nanv Σ0 y0 x0 = Some co ->
+    f_status (co_final co) = Converged ->
+    kkt_point Pb Clb Cub n m (p_tol AP) (p_dual_tol AP) (co_x co) (f_y (co_final co)).
+  Proof.
+    intros mem mdf rescale Hmem d0 outer_fuel nanv Σ0 y0 x0 co Hd0 (H1 & H2 & H3 & H4 & H5).
+    exact (alm_zerofpr_anderson_converged_is_kkt Pb prov wm_supplied Clb Cub l1 split stop_req time_up outer_oot PP from_prox AP ls_fuel inner_fuel n m
+             Hprov Hempty Hl1 Hcrit HLg HL HClb HCub HCne Hgf Hgg Hg HDlb HDub HDne mem mdf rescale Hmem d0 outer_fuel nanv Σ0 y0 x0 co Hd0 H1 H2 H3 H4 H5).
+  Qed.
+
+  Theorem C01_alm_zerofpr_struclbfgs_converged_is_kkt :
+    forall pw (LP : Lbfgs.params R) slb sub sl1 Dlb Dub prov_inactive prov_hess_L prov_hess_psi prov_box_D prov_grad_gi
+           grad_psi_at hess_L_prod hess_psi_prod eval_g grad_gi cbrt_eps hvf fd full_aug use_scaled
+           (d0 : sdstate (T:=R)) outer_fuel nanv Σ0 y0 x0 co, alm_run_hyps Σ0 y0 x0 ->
+    alm_zerofpr_dir Pb prov wm_supplied Clb Cub l1 split (sdstate (T:=R))
+                    (struct_dir n pw LP slb sub sl1 Dlb Dub prov_inactive prov_hess_L prov_hess_psi prov_box_D prov_grad_gi
+                                grad_psi_at hess_L_prod hess_psi_prod eval_g grad_gi cbrt_eps hvf fd full_aug use_scaled)
+                    stop_req time_up outer_oot PP from_prox AP ls_fuel inner_fuel d0 outer_fuel nanv Σ0 y0 x0 = Some co ->
+    f_status (co_final co) = Converged ->
+    kkt_point Pb Clb Cub n m (p_tol AP) (p_dual_tol AP) (co_x co) (f_y (co_final co)).
+  Proof.
+    intros pw LP slb sub sl1 Dlb Dub b1 b2 b3 b4 b5 f1 f2 f3 f4 f5 ce hvf fd fa us d0 outer_fuel nanv Σ0 y0 x0 co (H1 & H2 & H3 & H4 & H5).
+    exact (alm_zerofpr_struclbfgs_converged_is_kkt Pb prov wm_supplied Clb Cub l1 split stop_req time_up outer_oot PP from_prox AP ls_fuel inner_fuel n m
+             Hprov Hempty Hl1 Hcrit HLg HL HClb HCub HCne Hgf Hgg Hg HDlb HDub HDne pw LP slb sub sl1 Dlb Dub b1 b2 b3 b4 b5 f1 f2 f3 f4 f5 ce hvf fd fa us
+             d0 outer_fuel nanv Σ0 y0 x0 co H1 H2 H3 H4 H5).
+  Qed.
+
+  (* (14) the provider object survives: after ANY completed ALM run (whatever its status) from a sane provider, the provider is sane again
+     and the primal buffer holds an n-vector — a second operator() call on the same solver object is covered by (12)/(13) again *)
+  Theorem C01_alm_zerofpr_provider_stays_sane :
+    forall (D : Type) (ops : dirops R D) (I0 Iv : D -> Prop), dir_len n D ops I0 Iv ->
+    forall (d0 : D) outer_fuel nanv Σ0 y0 x0 co, I0 d0 \/ Iv d0 -> length x0 = n ->
+    alm_zerofpr_dir Pb prov wm_supplied Clb Cub l1 split D ops stop_req time_up outer_oot PP from_prox AP ls_fuel inner_fuel d0
+                    outer_fuel nanv Σ0 y0 x0 = Some co ->
+    (I0 (snd (co_w co)) \/ Iv (snd (co_w co))) /\ length (co_x co) = n.
+  Proof.
+    intros D ops I0 Iv HDL.
+    exact (alm_zerofpr_dir_keeps_provider Pb prov wm_supplied Clb Cub l1 split D ops stop_req time_up outer_oot PP from_prox AP ls_fuel inner_fuel n m
+             Hprov Hempty Hl1 Hcrit HLg HL HClb HCub Hgf Hgg Hg HDlb HDub I0 Iv HDL).
+  Qed.
+  Theorem C01_alm_panoc_provider_stays_sane :
+    forall (D : Type) (ops : dirops R D) (I0 Iv : D -> Prop), dir_len n D ops I0 Iv ->
+    forall (d0 : D) outer_fuel nanv Σ0 y0 x0 co, I0 d0 \/ Iv d0 -> length x0 = n ->
+    alm_panoc_dir Pb prov wm_supplied Clb Cub l1 split D ops stop_req time_up outer_oot PP AP ls_fuel inner_fuel d0
+                  outer_fuel nanv Σ0 y0 x0 = Some co ->
+    (I0 (snd (co_w co)) \/ Iv (snd (co_w co))) /\ length (co_x co) = n.
+  Proof.
+    intros D ops I0 Iv HDL.
+    exact (alm_panoc_dirlen_keeps_provider Pb prov wm_supplied Clb Cub l1 split D ops stop_req time_up outer_oot PP AP ls_fuel inner_fuel n m
+             Hprov Hempty Hl1 Hcrit HLg HL HClb HCub Hgf Hgg Hg HDlb HDub I0 Iv HDL).
+  Qed.
+End ShippedStacks.
+Print Assumptions C01_alm_panoc_dirlen_provider_converged_is_kkt.
+Print Assumptions C01_alm_panoc_anderson_converged_is_kkt.
+Print Assumptions C01_alm_panoc_struclbfgs_converged_is_kkt.
+Print Assumptions C01_alm_zerofpr_provider_converged_is_kkt.
+Print Assumptions C01_alm_zerofpr_lbfgs_converged_is_kkt.
+Print Assumptions C01_alm_zerofpr_noop_converged_is_kkt.
+Print Assumptions C01_alm_zerofpr_anderson_converged_is_kkt.
+Print Assumptions C01_alm_zerofpr_struclbfgs_converged_is_kkt.
+Print Assumptions C01_alm_zerofpr_provider_stays_sane.
+Print Assumptions C01_alm_panoc_provider_stays_sane.
+
+(* (15) REFINEMENT of whole composed runs, ZeroFPR: every run of ALM ∘ ZeroFPR with ANY stateful provider (any initial state, both values
+   of update_direction_from_prox_step) IS a run of the oracle-direction model alm_zerofpr of (6) for the oracle "the j-th apply call of the
+   whole ALM run returned what the provider returned there" — same ALM trace, final statistics, x, cumulative counters; inner logs up to
+   the q field of τ = 0 records.  So every theorem about alm_zerofpr for every direction oracle holds for the shipped ZeroFPR stacks. *)
+Theorem C01_alm_zerofpr_provider_refines_oracle_model :
+  forall (Pb : problem (T:=R)) (prov : fn -> bool) (wm_supplied : list R -> list R) (Clb Cub : list (option R)) (l1 : list R)
+    (split : nat) (D : Type) (ops : dirops R D) (stop_req time_up : counters -> bool)
+    (outer_oot : nat -> bool) (PP : Panoc.params (T:=R)) (from_prox : bool) (AP : alm_params (T:=R)) (ls_fuel inner_fuel : nat)
+    (d0 : D) (outer_fuel : nat) (nanv : R) (Σ0 : option (list R)) (y0 x0 : list R) (coD : cout (counters * D) (zresultD D)),
+  alm_zerofpr_dir Pb prov wm_supplied Clb Cub l1 split D ops stop_req time_up outer_oot PP from_prox AP ls_fuel inner_fuel d0 outer_fuel nanv Σ0 y0 x0
+    = Some coD ->
+  exists co : cout counters (result (T:=R)),
+    alm_zerofpr Pb prov wm_supplied Clb Cub l1 split
+                (fun j _ _ => nth j (ztraces D (co_logs coD)) None)      (* the oracle: j-th apply result of the whole run *)
+                (d_has_initial D ops) stop_req time_up outer_oot PP AP ls_fuel inner_fuel outer_fuel nanv Σ0 y0 x0 = Some co /\
+    co_trace co = co_trace coD /\ co_final co = co_final coD /\ co_x co = co_x coD /\ co_w co = fst (co_w coD) /\
+    Forall2 (zlog_sim D) (co_logs coD) (co_logs co).
+Proof. exact alm_zerofpr_dir_refines. Qed.
+Print Assumptions C01_alm_zerofpr_provider_refines_oracle_model.
+
+(* non-vacuity of (13): the instance of C01_alm_panoc_nonvacuous with ZeroFPR + LBFGSDirection (memory 5), from the default-constructed
+   provider: the composed model returns Converged after one outer iteration, x = 0, y = 0 *)
+Example C01_alm_zerofpr_lbfgs_nonvacuous :
+  exists co,
+    alm_zerofpr_dir nvPb nvprov (fun _ => []) [Some 0] [Some 1] [] 0 (Lbfgs.state R) (lbfgs_dir 1 nvz_pw nvzLP false) nv_never nv_never (fun _ => false)
+                    nvPP false nvAP 5 5 (lbfgs_unsized (T:=R)) 3 0 None [0] [0] = Some co /\
+    f_status (co_final co) = Converged /\ co_x co = [0] /\ f_y (co_final co) = [0].
+Proof. exact nvzD_converged. Qed.
